@@ -5,7 +5,8 @@
 (*                  never more than one, and IsHeartbeatRunning must agree with it; no call may panic;                   *)
 (*  mode "seq":     sequential histories of start / stop / remove entity / add entity; after every operation the          *)
 (*                  heartbeat runs iff the operation was start;                                                           *)
-(*  mode "periods": the ticker period is positive and does not exceed the announced timeout.                             *)
+(*  mode "periods": the ticker period is positive and does not exceed the announced timeout;                            *)
+(*  mode "slow":    after a subscriber's connection blocked for 2.5 s the refreshes still carry a current timestamp.     *)
 (* live = streams that refreshed the data at least twice in the observation window (one refresh may be in flight at a     *)
 (* stop); every refresh carries a strictly larger counter and is notified to the subscriber.                             *)
 EXTENDS Naturals, Sequences, FiniteSets, TLC, Json, IOUtils
@@ -36,6 +37,11 @@ RunningAfter(ops, i, r) == IF i > Len(ops) THEN r
 Defects(e) == CASE e.mode = "sched"   -> Common(e, AllowedLive(e))
                 [] e.mode = "seq"     -> Common(e, {IF RunningAfter(Append(e.pre, e.op), 1, TRUE) THEN 1 ELSE 0})
                 [] e.mode = "periods" -> (IF e.periodok /\ e.panic = "" THEN {} ELSE {"ticker period not in (0, timeout] or announced timeout wrong"})
+                \* a subscriber whose connection blocked for 2.5 s: the refreshes go on and carry a current timestamp
+                \* (timestamps are rounded to seconds: an age of up to one second is current)
+                [] e.mode = "slow"    -> (IF e.panic = "" THEN {} ELSE {"panic or hang"})
+                                         \cup (IF e.after >= 1 THEN {} ELSE {"no refresh after a slow subscriber"})
+                                         \cup (IF e.maxagems <= 1000 THEN {} ELSE {"refresh carries a stale timestamp"})
                 [] OTHER -> {"unknown mode"}
 
 VARIABLE l
